@@ -329,19 +329,19 @@ PENDING_REASON = ("check not built yet in this revision (planned in DESIGN.md §
 # sentences added with the round-3 strengthening of the checks (DESIGN.md 9.2 / 9.6)
 _ADDED = {
  "C01": " The second parameter point is evaluated once more with the public rescale flag switched on (the rescaled kernel).",
- "C02": " Also: alignments with 'twin' columns that differ only in an ambiguity code, and trees with a multifurcating internal node (every order of its children, every resolution into zero-length branches).",
+ "C02": " Also: alignments with 'twin' columns that differ only in an ambiguity code, and trees with a multifurcating internal node (every order of its children, every resolution into zero-length branches). Taxa named 1..n (names that look like list positions) are included.",
  "C03": " The same search is run on balanced trees of 4096-8192 tips, where the switch happens under mild underflow and later evaluations are an order of magnitude deeper. Every sweep size is also evaluated (fresh model) at branch lengths that put the smallest site likelihood just above / around / just below the smallest normal double.",
  "C04": " Consecutive lattice points are also visited on ONE model object (evaluate, move every parameter through the parameter interface - new tensor or in-place edit + notification -, evaluate).",
- "C05": " Update histories use both a new tensor and an in-place edit followed by the change notification.",
+ "C05": " Update histories use both a new tensor and an in-place edit followed by the change notification. The lattice includes an invariant proportion of exactly 0.",
  "C06": " Histories include in-place edits followed by the change notification, and the transforms are called again on the same tensor object after an in-place edit.",
- "C07": " Plus six trees of 200-256 tips with heights far from 1 (the determinant leaves the floating-point range, its logarithm does not).",
- "C08": " Also every genealogy with all times shifted (youngest sample not at 0) and, on the JSON-built models, histories that replace growth / grid / theta in turn on one model object.",
+ "C07": " Plus six trees of 200-256 tips with heights far from 1 (the determinant leaves the floating-point range, its logarithm does not). One-dimensional transforms are also evaluated far from the origin (tolerance derived from the conditioning), and the smooth-maximum variant (k > 0) of the increment transform on every shift tree.",
+ "C08": " Also every genealogy with all times shifted (youngest sample not at 0) and, on the JSON-built models, histories that replace growth / grid / theta in turn on one model object. Models built from times / events are evaluated, and a batch of two genealogies with different sampling times goes through the distribution the model hands out.",
  "C10": " Every density is additionally evaluated as the only component of a JointDistributionModel built at evaluation time. The slices of a batched tree interleave sampling and coalescent events differently.",
  "C12": " Every gradient is read again after the histories the optimisation loop produces (no_grad evaluation, notification, backward; notification and backward again at the same values).",
  "C13": " Well-formed documents are loaded through the real torchtree.torchtree.main() (--dry, document on stdin).",
  "C15": " The acceptance probability handed to the tuner is compared with the one computed from the from-scratch densities; targets include a window that leaves the support and a block-HMC target with an independent reversal test. A target with HMC on a positive parameter without a transform exercises the retry path of the operator.",
- "C16": " Block histories: one integrator and one joint, a block integrated twice with the other blocks moved in between, compared with a freshly built integrator.",
- "C18": " Drivers include the real Optimizer.run / MCMC.run loops (one iteration that leaves the parameters in place) and checkpoint_all starting from an existing plain checkpoint.",
+ "C16": " Block histories: one integrator and one joint, a block integrated twice with the other blocks moved in between, compared with a freshly built integrator. Operator scenarios include a state loaded from the checkpoint of an operator with another mass matrix.",
+ "C18": " Drivers include the real Optimizer.run / MCMC.run loops (one iteration that leaves the parameters in place) and checkpoint_all starting from an existing plain checkpoint. Crash modes include death by KeyboardInterrupt (the writer's clean-up code still runs); versions alternate in length.",
  "C19": " What the requested model fixes (equal frequencies of K80/SYM, --rate) must not move when the sampled leaves are displaced. SRD06 is crossed with the switches that set initial values; results of the root-to-tip regression must not depend on the substitution model.",
  "C09": " On the JSON-built BDSKModel every named parameter is replaced in turn on one model object and compared with a freshly built model.",
  "C17": " Includes every form the specification language has of giving a checkpointed parameter its initial value, and adaptors whose window closes before the last checkpoints.",
